@@ -67,7 +67,7 @@ struct Kid extends Plain
     ap AP
     fl Float64 = 2
     ts Timestamp("%Y-%m-%dT%H:%M:%SZ")
-    by Bytes?
+    byt Bytes?
     example default
         a = 1
         f = default
@@ -85,7 +85,7 @@ struct Kid extends Plain
         ap = nulls
         fl = 1.5
         ts = "1970-01-01T00:00:00Z"
-        by = "YWJj"
+        byt = "YWJj"
 
 struct Res
     union
@@ -156,6 +156,28 @@ struct Holder
         lu = []
 ''')]),
 ]
+
+
+def _reordered(specs):
+    out = []
+    for path, text in specs:
+        head, _, body = text.partition('\n\n')
+        blocks = [b for b in body.split('\n\n') if b.strip()]
+        decls = [b for b in blocks if b.startswith(('import', 'alias', 'annotation'))]
+        rest = [b for b in blocks if b not in decls]
+        # group "struct X ... example ..." blocks: a block that does not start at column 0 with a keyword belongs to the previous one
+        groups = []
+        for b in rest:
+            if b.startswith(('struct ', 'union ', 'union_closed ', 'route ', 'patch ')):
+                groups.append([b])
+            else:
+                groups[-1].append(b)
+        groups.reverse()
+        out.append((path, head + '\n\n' + '\n\n'.join(decls + ['\n\n'.join(g) for g in groups]) + '\n'))
+    return out
+
+
+RICH_EXAMPLES.append(('rich1-reversed', _reordered(RICH_EXAMPLES[0][1])))
 
 
 def defaults_spec():
@@ -273,6 +295,14 @@ def examples_of_api(api, pkg, specs, trace=()):
     n = 0
     ss = pkg.ss
     VE = pkg.bv.ValidationError
+    # examples may name omitted fields (whether they may is not settled): decode on behalf of a caller holding every permission
+    callers = sorted({f.omitted_caller for ns in api.namespaces.values() for d in ns.data_types for f in d.fields if f.omitted_caller})
+
+    class CP(ss.CallerPermissionsInterface):
+        @property
+        def permissions(self):
+            return callers
+    cp = CP() if callers else None
     for nsn, ns in api.namespaces.items():
         try:
             mod = pkg.mod(nsn)
@@ -297,7 +327,7 @@ def examples_of_api(api, pkg, specs, trace=()):
                 kind = ('struct' if isinstance(d, dt.Struct) else 'union')
                 inputs = {'specs': specs, 'type': '%s.%s' % (nsn, d.name), 'label': label, 'example': json.dumps(doc)[:400], 'trace': list(trace)}
                 try:
-                    dec = ss.json_compat_obj_decode(validator, doc, strict=True)
+                    dec = ss.json_compat_obj_decode(validator, doc, strict=True, caller_permissions=cp)
                 except VE as e:
                     oc['example-refused'] += 1
                     out_v.append(viol('example-refused:%s:%s' % (kind, rtbase.shape_kind(str(e))[:50]), 'example %s of %s.%s (%s) does not decode strictly: %s' % (
@@ -308,7 +338,7 @@ def examples_of_api(api, pkg, specs, trace=()):
                     out_v.append(viol('example-decode-raised:%s' % rtbase.runtime_identity(e, kind), 'decoding example %s raised %r' % (label, e), inputs, repr(e)))
                     continue
                 try:
-                    again = json.loads(ss.json_encode(validator, dec))
+                    again = json.loads(ss.json_encode(validator, dec, caller_permissions=cp))
                 except Exception as e:  # noqa
                     oc['example-reencode-raised'] += 1
                     out_v.append(viol('example-reencode-raised:%s:%s' % (kind, type(e).__name__), 're-encoding the decoded example %s raised %r' % (label, e), inputs, repr(e)))
@@ -327,6 +357,8 @@ def model_task(item):
     specs = payload if kind == 'text' else render.render(payload)
     out = impl.compile_specs(specs)
     if out.kind != 'ok':
+        if kind == 'text':
+            raise explore.InternalError('hand-written example spec %r is not accepted: %s' % (trace, out.brief()))
         return {'outcome': 'not-accepted', 'viol': []}
     pkg, fail = impl.build_python_package(out.api)
     if pkg is None:
@@ -352,7 +384,7 @@ def run(tier, seed):
         rtbase.universe_failure(r, PROP, e)
         return r.finish('defaults universe could not be built')
     items = [('defaults', lo, min(lo + 40, len(fields))) for lo in range(0, len(fields), 40)]
-    budget = 300 if tier == 'quick' else 1500
+    budget = 1200 if tier == 'quick' else 4000
     seen = set()
     nmodels = 0
     fams = [f for f in profiles.FAMILIES if profiles.implemented(f) and f != 'F10-examples']
